@@ -13,7 +13,10 @@ RULE = ("cases: (a) every cap kind (9 file kinds x file/directory wrapper) with 
         "unknown / known strings with every prefix, and NodeMaker.create_from_cap in both contexts; (d) histories of 6-10 "
         "create_from_cap calls on one NodeMaker with every node kept alive (same cap in the ordinary and in the "
         "deep-immutable context in both orders, both slots, prefixed variants), each answer compared with a fresh "
-        "NodeMaker's.  distinct non-trivial "
+        "NodeMaker's; (e) children (known caps of every kind and unknown caps with none/ro./imm./doubled prefixes in "
+        "either slot) attached through NodeMaker to SSK, MDMF and deep-immutable directories, serialized by the real "
+        "dirnode pack code and read back by _unpack_contents through the write cap, the read cap and after a rewrite.  "
+        "distinct non-trivial "
         "= distinct (cap, operation) or (string, prefix, context) that reach a known kind's parser or a non-opaque node")
 META = {
     "title": "Capabilities attenuate correctly",
@@ -428,11 +431,198 @@ def histories(ctx):
     ctx.trace(len(terms) - len(bad))
 
 
+def strength(s):
+    """2 = alleged immutable, 1 = alleged read-only, 0 = no allegation."""
+    if s is None:
+        return None
+    return 2 if s.startswith(b"imm.") else 1 if s.startswith(b"ro.") else 0
+
+
+def dir_candidates(r):
+    """(label, rw_uri, ro_uri) a client may try to attach to a directory."""
+    out = []
+    kinds = list(U.FILE_KINDS)
+    r.shuffle(kinds)
+    for kind in kinds[:4]:
+        for is_dir in (False, True):
+            if kind == "CHKVerifier":
+                continue        # NodeMaker builds a CiphertextFileNode, which is not an IFilesystemNode: pack asserts
+            fields = tuple((x % 2 ** 30) if isinstance(x, int) else x for x in U.gen_fields(r, kind))
+            if kind == "LIT":
+                fields = (fields[0][:12],)
+            c = U.make_cap(kind, fields, is_dir)
+            label = type(c).__name__
+            s, rs = c.to_string(), c.get_readonly().to_string()
+            if not c.is_readonly():
+                out.append((label + " rw+ro", s, rs))
+                out.append((label + " rw only", s, None))
+                out.append(("ro." + label + " in ro slot", None, b"ro." + s))
+            out.append((label + " readcap", None, rs))
+            out.append(("ro." + label + " readcap", None, b"ro." + rs))
+            out.append(("imm." + label + " readcap", None, b"imm." + rs))
+    for _ in range(2):
+        f = r.choice([b"x-some-future-cap:", b"lafs://", b"URI:FUTURE:", b"x-tahoe-future-test-writeable:", b"x-tahoe-future-test-mutable:"]) + U.rbytes(r, 6).hex().encode()
+        w = b"x-some-future-rw:" + U.rbytes(r, 4).hex().encode()
+        for pre in (b"", b"ro.", b"imm.", b"ro.ro.", b"ro.imm.", b"imm.ro.", b"imm.imm."):
+            out.append((pre.decode() + "future ro-slot", None, pre + f))
+            if pre:
+                out.append((pre.decode() + "future single", pre + f, None))
+        out.append(("future rw+ro", w, f))
+        out.append(("future rw+ro.ro", w, b"ro." + f))
+        out.append(("future rw+imm.ro", w, b"imm." + f))
+        out.append(("ro.future rw + ro", b"ro." + w, f))
+    r.shuffle(out)
+    return out
+
+
+def dir_roundtrip(ctx):
+    """Children attached to a directory, the directory serialized by the real
+    dirnode pack code and read back by _unpack_contents -- through the write cap and
+    through the read cap, and once more after a rewrite: no child may come back with a
+    weaker allegation (imm. -> ro. -> none), with a write cap it did not have, or as a
+    writeable / mutable node where it went in read-only / immutable."""
+    from allmydata.nodemaker import NodeMaker
+    from allmydata.dirnode import pack_children
+    from allmydata.unknown import UnknownNode
+    u = U.uri_mod()
+    ctx.correspondence("directory-store-read-vs-model")
+    terms, info = [], []
+    n = ctx.n(6, 45)
+    for i in range(n):
+        r = ctx.rng("dirrt", i)
+        nm = NodeMaker(None, None, None, None, None, {"k": 3, "n": 10}, None, None)
+        which = ("SSK", "MDMF", "CHK")[i % 3]
+        di = which == "CHK"
+        if di:
+            dcap = u.ImmutableDirectoryURI(u.CHKFileURI(U.rbytes(r, 16), U.rbytes(r, 32), 3, 10, 999))
+            views = [("immutable directory", nm.create_from_cap(dcap.to_string()), False)]
+        else:
+            W, D = (u.WriteableSSKFileURI, u.DirectoryURI) if which == "SSK" else (u.WriteableMDMFFileURI, u.MDMFDirectoryURI)
+            dcap = D(W(U.rbytes(r, 16), U.rbytes(r, 32)))
+            views = [(which + " directory via write cap", nm.create_from_cap(dcap.to_string()), True),
+                     (which + " directory via read cap", nm.create_from_cap(dcap.get_readonly().to_string()), False)]
+        children, meta = {}, {}
+        for j, (label, rw, ro) in enumerate(dir_candidates(r)):
+            try:
+                node = nm.create_from_cap(rw, ro, deep_immutable=di, name=u"child")
+                node.raise_error()
+            except Exception:
+                ctx.case(None, kind="dir-child:refused")
+                continue        # refused up front: nothing is stored
+            if di and not node.is_allowed_in_immutable_directory():
+                ctx.case(None, kind="dir-child:refused")
+                continue
+            name = u"c%03d" % j
+            children[name] = (node, {})
+            meta[name] = (label, rw, ro)
+        try:
+            packed = pack_children(children, None, deep_immutable=True) if di else views[0][1]._pack_contents(children)
+        except Exception as e:
+            ctx.oracle_fail("directory-pack-raises:" + type(e).__name__, "packing attachable children raises %s" % type(e).__name__,
+                            case={"directory": which, "children": [[m[0], None if m[1] is None else m[1].hex(), None if m[2] is None else m[2].hex()] for m in meta.values()]})
+            continue
+        generations = []
+        for where, dn, writeable in views:
+            got = dn._unpack_contents(packed)
+            generations.append((where, got, writeable))
+            if writeable:
+                again = dn._unpack_contents(dn._pack_contents(dict((k, (c, md)) for k, (c, md) in got.items())))
+                generations.append((where + ", second rewrite", again, writeable))
+        for where, got, writeable in generations:
+            for name, (before, _) in children.items():
+                label, rw, ro = meta[name]
+                b_rw, b_ro = before.get_write_uri(), before.get_readonly_uri()
+                case = {"directory": which, "view": where, "child": label, "deep_immutable": di, "writeable_view": writeable,
+                        "rw_hex": None if rw is None else rw.hex(), "ro_hex": None if ro is None else ro.hex(),
+                        "attached_as": [type(before).__name__, None if b_rw is None else U.show(b_rw), None if b_ro is None else U.show(b_ro)]}
+                after = got[name][0] if name in got else None
+                unk_b = isinstance(before, UnknownNode)
+                ctx.case((which, where, label, rw, ro) if after is not None else None,
+                         kind="dir-child:%s:%s:%s" % (which, "unknown" if unk_b else "known", "kept" if after is not None else "dropped"))
+                if after is None:
+                    if "second rewrite" not in where:
+                        terms.append("opt_eqb made_eqb (dir_store_read %s %s %s) None" % (made_term(before), T.boolean(di), T.boolean(writeable)))
+                        info.append(case)
+                    # a child that is dropped on read-back (its stored form violates the directory's
+                    # constraint, e.g. 'ro.imm.x-tahoe-future-test-mutable:' is stored as 'imm.x-...') fails
+                    # closed: nothing is interpreted more strongly.  Compared with the model only.
+                    continue
+                a_rw, a_ro = after.get_write_uri(), after.get_readonly_uri()
+                case["read_back_as"] = [type(after).__name__, None if a_rw is None else U.show(a_rw), None if a_ro is None else U.show(a_ro)]
+                if a_rw and not b_rw:
+                    ctx.oracle_fail("directory-child-gains-write-cap", "%s: child %s came back with write cap %s" % (where, label, U.show(a_rw)), case=case)
+                if not writeable and a_rw:
+                    ctx.oracle_fail("directory-child-gains-write-cap", "%s: child %s has a write cap in a read-only view" % (where, label), case=case)
+                unk_a = isinstance(after, UnknownNode)
+                if unk_b:
+                    if not unk_a:
+                        ctx.oracle_fail("directory-unknown-child-becomes-known", "%s: unknown child %s came back as %s" % (where, label, type(after).__name__), case=case)
+                    elif strength(a_ro) < strength(b_ro):
+                        ctx.oracle_fail("directory-roundtrip-weakens-allegation",
+                                        "%s: child %s went in as %s and came back as %s: the '%s' allegation was weakened" % (
+                                            where, label, U.show(b_ro), U.show(a_ro), "imm." if strength(b_ro) == 2 else "ro."),
+                                        case=case, expected=U.show(b_ro), observed=U.show(a_ro))
+                    elif before.is_alleged_immutable() and not after.is_alleged_immutable():
+                        ctx.oracle_fail("directory-roundtrip-weakens-allegation", "%s: child %s was alleged immutable and is no longer" % (where, label), case=case)
+                else:
+                    if unk_a:
+                        ctx.oracle_fail("directory-known-child-becomes-unknown", "%s: known child %s came back unknown" % (where, label), case=case)
+                    else:
+                        if not before.is_mutable() and after.is_mutable():
+                            ctx.oracle_fail("alleged-immutable-interpreted-as-mutable", "%s: immutable child %s came back mutable" % (where, label), case=case)
+                        if before.is_readonly() and not after.is_readonly():
+                            ctx.oracle_fail("alleged-prefix-upgraded-to-writeable", "%s: read-only child %s came back writeable" % (where, label), case=case)
+                        if a_ro != b_ro:
+                            ctx.oracle_fail("directory-child-read-cap-changes", "%s: read cap of %s changed %s -> %s" % (where, label, U.show(b_ro), U.show(a_ro)), case=case)
+                if "second rewrite" not in where:
+                    terms.append("opt_eqb made_eqb (dir_store_read %s %s %s) (Some %s)" % (made_term(before), T.boolean(di), T.boolean(writeable), made_term(after)))
+                    info.append(case)
+        if i < 2:
+            ctx.sample({"directory": which, "children_stored": len(children), "views": [g[0] for g in generations]})
+    bad = ctx.coq_check(IMPORTS, terms, tag="c16dir", shard=60)
+    for ix in bad:
+        ctx.mismatch("model-vs-impl:directory-store-read", "Model dir_store_read and dirnode pack/_unpack_contents differ on child %s (%s)" % (info[ix]["child"], info[ix]["view"]),
+                     case=info[ix], correspondence="directory-store-read-vs-model")
+    ctx.trace(len(terms) - len(bad))
+
+
 def run(ctx):
     attenuation(ctx)
     prefixes(ctx)
     unknown_nodes(ctx)
     histories(ctx)
+    dir_roundtrip(ctx)
+
+
+def replay_dir_child(ctx, case):
+    """One child, one directory: attach, pack, read back through the recorded view."""
+    from allmydata.nodemaker import NodeMaker
+    from allmydata.dirnode import pack_children
+    u = U.uri_mod()
+    nm = NodeMaker(None, None, None, None, None, {"k": 3, "n": 10}, None, None)
+    di = bool(case["deep_immutable"])
+    rw = None if case["rw_hex"] is None else bytes.fromhex(case["rw_hex"])
+    ro = None if case["ro_hex"] is None else bytes.fromhex(case["ro_hex"])
+    node = nm.create_from_cap(rw, ro, deep_immutable=di)
+    children = {u"child": (node, {})}
+    if di:
+        dn = nm.create_from_cap(u.ImmutableDirectoryURI(u.CHKFileURI(b"k" * 16, b"h" * 32, 3, 10, 999)).to_string())
+        packed = pack_children(children, None, deep_immutable=True)
+    else:
+        W, D = (u.WriteableMDMFFileURI, u.MDMFDirectoryURI) if case["directory"] == "MDMF" else (u.WriteableSSKFileURI, u.DirectoryURI)
+        dcap = D(W(b"k" * 16, b"f" * 32))
+        dn_w = nm.create_from_cap(dcap.to_string())
+        packed = dn_w._pack_contents(children)
+        dn = dn_w if case["writeable_view"] else nm.create_from_cap(dcap.get_readonly().to_string())
+    got = dn._unpack_contents(packed)
+    after = got[u"child"][0] if u"child" in got else None
+    out = {"attached": [type(node).__name__, node.get_write_uri(), node.get_readonly_uri()],
+           "read_back": None if after is None else [type(after).__name__, after.get_write_uri(), after.get_readonly_uri()]}
+    b_ro = node.get_readonly_uri()
+    if after is not None and node.is_unknown() and after.is_unknown() and strength(after.get_readonly_uri()) < strength(b_ro):
+        ctx.oracle_fail("directory-roundtrip-weakens-allegation", "child went in as %s and came back as %s" % (U.show(b_ro), U.show(after.get_readonly_uri())), case=case)
+    out["model"] = ctx.coq_eval(IMPORTS, "dir_store_read %s %s %s" % (made_term(node), T.boolean(di), T.boolean(bool(case["writeable_view"]))))[-1500:]
+    return out
 
 
 def replay(ctx, rec):
@@ -449,6 +639,8 @@ def replay(ctx, rec):
                 ctx.oracle_fail("alleged-prefix-upgraded-to-writeable", "still writeable on replay", case=case)
             if (s.startswith(b"imm.") or case["deep_immutable"]) and o[2].is_mutable():
                 ctx.oracle_fail("alleged-immutable-interpreted-as-mutable", "still mutable on replay", case=case)
+    elif "directory" in case and "view" in case:
+        out = replay_dir_child(ctx, case)
     elif "calls" in case:
         from allmydata.nodemaker import NodeMaker
         nm = NodeMaker(None, None, None, None, None, {"k": 3, "n": 10}, None, None)
